@@ -49,6 +49,9 @@ def _bt_inv(ctx):
     st = ctx.cur
     self = ctx.entry.locals["self"]
     out = [("strategy-field-unchanged", st.heap.get(self, "strategy").term == ctx.entry.heap.get(self, "strategy").term)]
+    strat0 = ctx.entry.heap.get(self, "strategy")
+    # the strategy's clock follows the loop: after i iterations it stands on date number i of the data (row 0 is the pre-start row updated before the loop)
+    out.append(("clock-is-on-the-last-date-fed", st.heap.get(strat0, "now").eq(Num(dateat_f(Num.lift(ctx.i).r), False, True))))
     if ctx.phase != "step":
         return out
     strat = ctx.entry.heap.get(self, "strategy")
@@ -154,6 +157,8 @@ def verify_backtest_run(ex, contract, timeout_ms=30000):
                     up0 = calls[2]
                     ob("first-update-is-the-pre-start-row", And(up0[1].term == strat.term, up0[2][0].eq(Num(dateat_f(0), False, True))), ("C03", "C12"))
                 ob("no-algos-before-the-date-loop", "run" not in names, ("C12", "C16"))
+                # every date of the data is visited, whatever happens on the way (a bankrupt strategy is still updated): the run ends on the last date
+                ob("the-run-ends-on-the-last-date-of-the-data", Implies(idxlen_c >= 1, F.get(strat, "now").eq(Num(dateat_f(idxlen_c - 1), False, True))), ("C09", "C16", "C10", "C08"))
                 # shadow copies are deep-copied inside setup and are not reached by set_commissions/use_integer_positions afterwards
                 ob("settings-not-changed-after-setup", "set_commissions" not in names and "use_integer_positions" not in names, ("C09", "C19", "C07"))
         s = z3.Solver()
